@@ -9,7 +9,7 @@ import (
 
 // C02 — Bash target preserves function-call semantics and variable isolation.
 func c02Cfg(thorough bool) gen.Cfg {
-	c := gen.Cfg{MaxStmts: 24, MaxDepth: 3, ExprDepth: 3, Funcs: true, MaxFuncs: 4, Slices: true, LoopBudget: 12, DumpGlobal: true, Wide: true, ErrSpell: true, BareExpr: true}
+	c := gen.Cfg{MaxStmts: 24, MaxDepth: 3, ExprDepth: 3, Funcs: true, MaxFuncs: 4, Slices: true, LoopBudget: 12, DumpGlobal: true, Wide: true, ErrSpell: true, BareExpr: true, Panics: true}
 	if thorough {
 		c.MaxStmts, c.MaxDepth, c.MaxFuncs, c.LoopBudget = 50, 5, 6, 30
 	}
